@@ -11,8 +11,9 @@
      Stop():     mu.Lock; if !shouldStop { shouldStop = true; close(fullBatches) }; Unlock; wait workers
 
    There are exactly Workers batch objects and both channels have capacity Workers, so a channel send never
-   blocks -- but a send on the CLOSED fullBatches channel panics.  SendUnderLock = FALSE is the pinned code
-   (named deviation D9): Stop can close the channel in the gap between mu.Unlock and the send.               *)
+   blocks -- but a send on the CLOSED fullBatches channel panics.  SendUnderLock = TRUE is the code since the repair
+   08b19bf; FALSE is the order of the pinned commit (defect D9): Stop could close the channel in the gap between
+   mu.Unlock and the send.  The FALSE configuration is kept as a spec mutant that must reach the panic state.  *)
 EXTENDS Integers, Sequences, FiniteSets, TLC
 
 CONSTANTS Adders,          \* adder goroutines (each adds its events one by one)
